@@ -190,5 +190,5 @@ func (s *IMAPServer) HandleSSLConnection(conn net.Conn) {
 		s.sendResponse(conn, "* OK [CAPABILITY IMAP4rev1 AUTH=PLAIN LOGIN UIDPLUS IDLE LITERAL+] SQLite IMAP server ready")
 		handleClient(s, conn, state)
 	}
-	auth.HandleSSLConnection(clientHandler, conn)
+	auth.HandleSSLConnectionWithCert(s.certPath, s.keyPath, clientHandler, conn)
 }
